@@ -62,7 +62,8 @@ def gen_case(seed, tier, prop="C14"):
             calls.append({"pre": rng.choice([0, 0, 0, 0.125, 0.125, 0.25, 0.25, 10.5]), "abandon": rng.random() < 0.35,
                           "shape": rng.choice(["plain", "plain", "shield_inner", "shield_self"]),
                           "cancel_after": rng.choice([None, None, 0, 0.0625, 0.125, 0.25, 0.5]),
-                          "naps": [rng.choice([0.125, 0.25, 0.5]) for _ in range(3)], "plan": plan})
+                          "naps": [rng.choice([0.125, 0.25, 0.5]) for _ in range(3)], "plan": plan,
+                          "ret": rng.choice(["tuple", "tuple", "none", "exc"])})
         callers.append(calls)
     loop = LoopConfig(eager=rng.random() < 0.25, cap=30000, p_late=rng.choice([0, 0, 0.2])).to_json()
     return {"engine": "threads_to", "prop": "C14", "total": rng.choice([1, 1, 2, 3, "default"]), "callers": callers,
@@ -149,9 +150,19 @@ class ToThreadRun:
                 elif step == "cb_sync":
                     tid = threading.get_ident()
                     st["in_callback"] = True
-                    r = from_thread.run_sync(lambda: ("sync", cid, threading.get_ident()))
+                    obj = CbErr("returned, not raised", cid) if (cid[0] + cid[1]) % 2 else None
+                    try:
+                        r = from_thread.run_sync(lambda: obj if obj is not None else ("sync", cid, threading.get_ident()))
+                    except CbErr as e:
+                        r = ("raised", e)
                     st["in_callback"] = False
-                    if r[:2] != ("sync", cid) or r[2] == tid:
+                    if obj is not None:
+                        if r is not obj:
+                            self.v("callback_value", f"call {cid}: from_thread.run_sync returned/raised {r!r} instead of returning "
+                                                     f"the exception instance the function returned")
+                        else:
+                            self.bump("callback_sync_ok")
+                    elif r[:2] != ("sync", cid) or r[2] == tid:
                         self.v("callback_value", f"call {cid}: from_thread.run_sync returned {r!r}")
                     else:
                         self.bump("callback_sync_ok")
@@ -159,8 +170,11 @@ class ToThreadRun:
                     exc = FnErr(cid) if step == "raise" else StopAsyncIteration(cid) if step == "raise_sai" else FnBaseErr(cid)
                     st["raised"] = exc
                     raise exc
-            val = ("ret", cid)
+            # what the function returns is data, whatever its type: a tuple, None, or an exception *instance*
+            kind = st.get("ret", "tuple")
+            val = ("ret", cid) if kind == "tuple" else None if kind == "none" else FnErr("returned, not raised", cid)
             st["returned"] = val
+            st["has_returned"] = True
             return val
         finally:
             self.running -= 1
@@ -185,7 +199,9 @@ class ToThreadRun:
             else:
                 self.bump("callback_cancelled_with_host")
         else:
-            if step == "cb_fail" or r != ("cb", step, cid):
+            want_exc = step == "cb_lock" and (cid[0] + cid[1]) % 2 == 0
+            good = (isinstance(r, CbErr) and r.args == ("returned, not raised", step, cid)) if want_exc else r == ("cb", step, cid)
+            if step == "cb_fail" or not good:
                 self.v("callback_value", f"call {cid}: from_thread.run({step}) returned {r!r}")
             else:
                 self.bump("callback_ok")
@@ -201,6 +217,8 @@ class ToThreadRun:
         elif step == "cb_fail":
             await checkpoint()
             raise CbErr(cid)
+        if step == "cb_lock" and (cid[0] + cid[1]) % 2 == 0:
+            return CbErr("returned, not raised", step, cid)      # an exception instance is a value like any other
         return ("cb", step, cid)
 
     def limit_check(self, where):
@@ -324,13 +342,14 @@ class ToThreadRun:
                     else:
                         self.bump("abandoned_while_running")
         elif kind == "ok":
-            if val != ("ret", cid) or val is not st.get("returned"):
+            if not st.get("has_returned") or val is not st.get("returned"):
                 self.v("result", f"call {cid}: run_sync returned {val!r}, the function returned {st.get('returned')!r}")
             else:
                 self.bump("value_returned")
         else:
             if val is not st.get("raised"):
-                self.v("result", f"call {cid}: run_sync raised {val!r}, the function raised {st.get('raised')!r}")
+                self.v("result", f"call {cid}: run_sync raised {val!r}, the function raised {st.get('raised')!r}"
+                                 + (f" and returned {st.get('returned')!r}" if st.get("has_returned") else ""))
             else:
                 self.bump("exception_propagated")
         if kind != "cancelled" and not st["abandon"] and st.get("running_at_cancel"):
